@@ -148,12 +148,23 @@ class Block:
         self.alias = {"transaction"}
         self.accts = {}        # python variable -> lean account term
         self.locals = {}       # python local holding a decimal -> lean let-bound name
+        self.dictalias = {}    # parameter of an inlined helper -> the dictionary it is bound to
+        self.shadow = set()    # names shadowed inside an inlined helper
+        self.helpers = {}      # name -> FunctionDef (module-level functions and methods of BalanceSet), set by gen_balance
+        self.depth = 0
         self.masks = masks
         self.n = 0
 
     def fresh(self):
         self.n += 1
         return f"c{self.n}"
+
+    def dname(self, e):
+        """a Name that denotes one of the four dictionaries (directly or as a helper's parameter) -> its name, else None"""
+        if isinstance(e, ast.Name):
+            if e.id in self.dictalias: return self.dictalias[e.id]
+            if e.id in DICTS and e.id not in self.shadow: return e.id
+        return None
 
     def tx_attr(self, e):
         if isinstance(e, ast.Attribute) and isinstance(e.value, ast.Name) and e.value.id in self.alias:
@@ -180,11 +191,10 @@ class Block:
             if a in TXF[self.cls]:
                 return TXF[self.cls][a]
             raise Untranslatable(f"attribute {a} of {self.cls}")
-        if isinstance(e, ast.Call) and isinstance(e.func, ast.Attribute) and e.func.attr == "get" and isinstance(e.func.value, ast.Name) \
-                and e.func.value.id in DICTS and len(e.args) == 2:
-            return f"(s.{e.func.value.id}.getD {self.acct(e.args[0])} {self.dec(e.args[1])})"
-        if isinstance(e, ast.Subscript) and isinstance(e.value, ast.Name) and e.value.id in DICTS:
-            return f"(← s.{e.value.id}.get? {self.acct(e.slice)})"
+        if isinstance(e, ast.Call) and isinstance(e.func, ast.Attribute) and e.func.attr == "get" and self.dname(e.func.value) and len(e.args) == 2:
+            return f"(s.{self.dname(e.func.value)}.getD {self.acct(e.args[0])} {self.dec(e.args[1])})"
+        if isinstance(e, ast.Subscript) and self.dname(e.value):
+            return f"(← s.{self.dname(e.value)}.get? {self.acct(e.slice)})"
         if isinstance(e, ast.BinOp) and type(e.op) in (ast.Add, ast.Sub):
             return f"({'dadd' if isinstance(e.op, ast.Add) else 'dsub'} {self.dec(e.left)} {self.dec(e.right)})"
         raise Untranslatable("decimal expression " + ast.unparse(e)[:60])
@@ -229,6 +239,9 @@ class Block:
             if isinstance(s, ast.Expr):
                 if isinstance(s.value, ast.Call) and ast.unparse(s.value.func).startswith("LOGGER."):
                     continue
+                if isinstance(s.value, ast.Call):
+                    out += self.inline(s.value, ind)
+                    continue
                 raise Untranslatable("expression statement " + ast.unparse(s)[:60])
             if isinstance(s, ast.AnnAssign) and isinstance(s.target, ast.Name) and s.value is not None:
                 s = ast.copy_location(ast.Assign(targets=[s.target], value=s.value), s)
@@ -240,8 +253,8 @@ class Block:
                     self.alias.add(tg.id); continue
                 if isinstance(tg, ast.Name) and isinstance(s.value, ast.Call) and ast.unparse(s.value.func) == "Account":
                     self.accts[tg.id] = self.acct(s.value); continue
-                if isinstance(tg, ast.Subscript) and isinstance(tg.value, ast.Name) and tg.value.id in DICTS:
-                    d = tg.value.id
+                if isinstance(tg, ast.Subscript) and self.dname(tg.value):
+                    d = self.dname(tg.value)
                     out.append(f"{ind}let s : St := {{ s with {d} := s.{d}.set {self.acct(tg.slice)} {self.dec(s.value)} }}")
                     continue
                 if isinstance(tg, ast.Name) and tg.id not in self.alias and tg.id not in DICTS and tg.id != "transaction":
@@ -252,9 +265,8 @@ class Block:
                     out.append(f"{ind}let {nm} : Rat := {v}")
                     self.locals[tg.id] = nm
                     continue
-            if isinstance(s, ast.AugAssign) and isinstance(s.target, ast.Subscript) and isinstance(s.target.value, ast.Name) \
-                    and s.target.value.id in DICTS and type(s.op) in (ast.Add, ast.Sub):
-                d = s.target.value.id; k = self.acct(s.target.slice)
+            if isinstance(s, ast.AugAssign) and isinstance(s.target, ast.Subscript) and self.dname(s.target.value) and type(s.op) in (ast.Add, ast.Sub):
+                d = self.dname(s.target.value); k = self.acct(s.target.slice)
                 op = "dadd" if isinstance(s.op, ast.Add) else "dsub"
                 out.append(f"{ind}let s : St := {{ s with {d} := s.{d}.set {k} ({op} (← s.{d}.get? {k}) {self.dec(s.value)}) }}")
                 continue
@@ -265,6 +277,80 @@ class Block:
                 continue
             raise Untranslatable("statement " + ast.unparse(s)[:70])
         return out
+
+
+def _inline(self, call, ind):
+    """a call, used as a statement, of a small helper (module-level function or method of BalanceSet): its body is translated in place with the
+    parameters bound to the arguments (decimal arguments are evaluated at the call, as in Python).  An early `return` is accepted when nothing
+    after it changes a dictionary (a checking helper)."""
+    fn = ast.unparse(call.func)
+    name = fn.split(".")[-1]
+    if name not in self.helpers or fn not in (name, "self." + name, "BalanceSet." + name, "cls." + name) or self.depth >= 2:
+        raise Untranslatable("call " + ast.unparse(call)[:60])
+    h = self.helpers[name]
+    params = [a.arg for a in h.args.args if a.arg not in ("self", "cls")]
+    if h.args.vararg or h.args.kwarg or h.args.kwonlyargs or len(call.args) > len(params):
+        raise Untranslatable("helper signature " + name)
+    given = dict(zip(params, call.args)); given.update({k.arg: k.value for k in call.keywords})
+    if sorted(given) != sorted(params): raise Untranslatable("helper arguments " + name)
+    saved = (dict(self.accts), dict(self.locals), set(self.alias), dict(self.dictalias), set(self.shadow))
+    out = []
+    new_accts, new_locals, new_alias, new_dict = {}, {}, set(), {}
+    for pn, a in given.items():
+        if self.dname(a): new_dict[pn] = self.dname(a); continue
+        if isinstance(a, ast.Name) and a.id in self.alias: new_alias.add(pn); continue
+        if ast.unparse(a) == "configuration" and pn == "configuration": continue
+        try:
+            new_accts[pn] = self.acct(a); continue
+        except Untranslatable:
+            pass
+        v = self.dec(a)
+        self.n += 1
+        nm = f"v{self.n}_{pn}"
+        out.append(f"{ind}let {nm} : Rat := {v}")
+        new_locals[pn] = nm
+    self.shadow = set(params)
+    self.accts = dict(new_accts); self.locals = dict(new_locals); self.alias = set(new_alias) or set(); self.dictalias = dict(new_dict)
+    self.depth += 1
+    try:
+        body = nodoc(h.body)
+        if body and isinstance(body[-1], ast.Return) and body[-1].value is None:
+            body = body[:-1]
+        hb = self.helper_body(body, ind)
+        if any(" let s : St := " in l for l in hb):
+            # only *checking* helpers are inlined: the theorems about the blocks are proved for the shape in which each dictionary is updated once
+            # per block; a helper that updates dictionaries changes that shape, and a proof that no longer applies would be reported although the
+            # behaviour may be the same — such a loop is left to the differential correspondence instead
+            raise Untranslatable("helper " + name + " updates a dictionary")
+        out += hb
+    finally:
+        self.depth -= 1
+        self.accts, self.locals, self.alias, self.dictalias, self.shadow = saved
+    return out
+
+
+def _helper_body(self, body, ind):
+    out = []
+    for k, s in enumerate(body):
+        if isinstance(s, ast.If) and not s.orelse and len(nodoc(s.body)) == 1 and isinstance(nodoc(s.body)[0], ast.Return) and nodoc(s.body)[0].value is None:
+            # early return: the rest of the helper runs only when the condition is false; accepted when the rest changes no dictionary
+            rest = self.helper_body(body[k + 1:], ind + "  ")
+            if any(" let s : St := " in l for l in rest):
+                raise Untranslatable("early return before a dictionary update")
+            c = self.fresh()
+            out.append(f"{ind}let {c} ← {self.condM(s.test, ind)}")
+            if rest:
+                out.append(f"{ind}if !{c} then do")
+                out += rest
+            return out
+        if isinstance(s, ast.Return):
+            raise Untranslatable("return in a helper")
+        out += self.stmts([s], ind)
+    return out
+
+
+Block.inline = _inline
+Block.helper_body = _helper_body
 
 
 def gen_balance():
@@ -330,6 +416,8 @@ def gen_balance():
         if cls in seen: raise Untranslatable("two blocks for " + cls)
         seen.append(cls)
         b = Block(cls, masks)
+        b.helpers = {f.name: f for f in tree.body if isinstance(f, ast.FunctionDef)}
+        b.helpers.update({f.name: f for n_ in tree.body if isinstance(n_, ast.ClassDef) and n_.name == "BalanceSet" for f in n_.body if isinstance(f, ast.FunctionDef) and f.name != "__init__"})
         lines = b.stmts(s.body)
         name = {"InTransaction": "stepIn", "IntraTransaction": "stepIntra", "OutTransaction": "stepOut"}[cls]
         out.append(f"/-- the `isinstance(transaction, {cls})` block of the replay loop; `none` = an exception -/")
